@@ -762,6 +762,18 @@ NextPin:
 			rollback()
 			return fmt.Errorf("Node type must be sent with new edges")
 		}
+		// make sure the new edge does not make the node an ancestor of itself
+		cycle, err := sdb.isAncestor(tx, nodeID, parentID, make(map[string]bool))
+		if err != nil {
+			rollback()
+			return err
+		}
+		if cycle {
+			rollback()
+			return fmt.Errorf("Error: %v is an ancestor of %v, edge would create a cycle",
+				nodeID, parentID)
+		}
+
 		// did not find edge, need to add it
 		edge.Up = parentID
 		edge.Down = nodeID
@@ -853,6 +865,46 @@ NextPin:
 	}
 
 	return nil
+}
+
+// isAncestor returns true if ancestor is id, or is upstream of id through any edge
+func (sdb *DbSqlite) isAncestor(tx *sql.Tx, ancestor, id string, visited map[string]bool) (bool, error) {
+	if id == ancestor {
+		return true, nil
+	}
+
+	if visited[id] {
+		return false, nil
+	}
+	visited[id] = true
+
+	rows, err := tx.Query("SELECT up FROM edges WHERE down=?", id)
+	if err != nil {
+		return false, err
+	}
+
+	var ups []string
+	for rows.Next() {
+		var up string
+		if err := rows.Scan(&up); err != nil {
+			rows.Close()
+			return false, err
+		}
+		ups = append(ups, up)
+	}
+
+	if err := rows.Close(); err != nil {
+		return false, err
+	}
+
+	for _, up := range ups {
+		found, err := sdb.isAncestor(tx, ancestor, up, visited)
+		if err != nil || found {
+			return found, err
+		}
+	}
+
+	return false, nil
 }
 
 // updateEdgeHash applies hashUpdate to edge and all edges upstream of it
